@@ -129,8 +129,10 @@ func sanitize(s string) string {
 	var sb strings.Builder
 	for _, c := range s {
 		switch {
-		case c >= 'a' && c <= 'z', c >= 'A' && c <= 'Z', c >= '0' && c <= '9', c == '_', c == '.', c == '$', c == '!', c == '#', c == '@':
+		case c >= 'a' && c <= 'z', c >= 'A' && c <= 'Z', c >= '0' && c <= '9', c == '_', c == '.', c == '$', c == '!', c == '@':
 			sb.WriteRune(c)
+		case c == '#':
+			sb.WriteByte('%')
 		default:
 			sb.WriteByte('_')
 		}
